@@ -83,7 +83,7 @@ def build(r):
         size = r.choice([0, 4, 64, vmax])
         bind = r.choice([1, 1, 2, 0])
         typ = r.choice([2, 2, 1, 0, 6, 5])
-        vis = r.choice([0, 0, 1, 2, 3])
+        vis = r.choice([0, 0, 1, 2, 3, 4, 5, 6, 7])        # all three bits of the visibility field
         shndx = 0 if undef else r.choice([1, 1, 2, 0xfff1, 0xfff2, 0xffff, 0xffff])
         loc = r.choice([0, 0, 0, 3, 7])
         syms.append(_sym(cls, bo, offs[nm], value, size, bind << 4 | typ, loc << 5 | vis, shndx))
@@ -306,7 +306,11 @@ def build_dynamic(r):
     ehsize = 52 if cls == 32 else 64
     phsize = 32 if cls == 32 else 56
     shsize = 40 if cls == 32 else 64
-    body = bytearray(bytes(ehsize + 3 * phsize))
+    # sometimes the read-only tables are spread over two PT_LOADs that abut in memory but not in the file: a pointer equal
+    # to the second one's p_vaddr is also the (exclusive) end of the first one
+    want_split = r.random() < 0.35
+    nph = 4 if want_split else 3
+    body = bytearray(bytes(ehsize + nph * phsize))
     tabs = [('.dynsym', dynsym), ('.dynstr', bytes(strtab))]
     if have_sysv:
         tabs.append(('.hash', sysv))
@@ -320,9 +324,16 @@ def build_dynamic(r):
         tabs.append(('.relr.dyn', relr))
     r.shuffle(tabs)
     place = {}
-    for nm, data in tabs:
+    split_at = r.randrange(1, len(tabs)) if want_split and len(tabs) >= 2 else None
+    a_end = b_off = gap = None
+    for ti, (nm, data) in enumerate(tabs):
         body += bytes(r.choice([0, 0, 8, 24]))
         body += bytes(-len(body) % 8)
+        if ti == split_at:
+            a_end = len(body)
+            gap = r.choice([8, 64, 4096])
+            body += bytes(r.getrandbits(8) for _ in range(gap))
+            b_off = len(body)
         place[nm] = (len(body), len(data))
         body += data
     seg1_end = len(body)
@@ -332,7 +343,7 @@ def build_dynamic(r):
     bias2 = base1 + r.choice([0x1000, 0x200000, 0x10000])          # p_vaddr - p_offset differs between the two segments
 
     def va1(off):
-        return base1 + off
+        return base1 + off if b_off is None or off < b_off else base1 + off - gap
 
     def va2(off):
         return bias2 + off
@@ -418,9 +429,15 @@ def build_dynamic(r):
         if cls == 32:
             return b''.join(x.to_bytes(4, bo) for x in (typ, off, vaddr, vaddr, filesz, memsz, flags, align))
         return typ.to_bytes(4, bo) + flags.to_bytes(4, bo) + b''.join(x.to_bytes(8, bo) for x in (off, vaddr, vaddr, filesz, memsz, align))
-    phs = [phdr(1, 5, 0, va1(0), seg1_end, seg1_end, 0x1000),
-           phdr(1, 6, seg2_off, va2(seg2_off), seg2_end - seg2_off, seg2_end - seg2_off + r.choice([0, 64]), 0x1000),
-           phdr(2, 6, dyn_off, va2(dyn_off), len(dynamic), len(dynamic), w)]
+    if b_off is None:
+        phs = [phdr(1, 5, 0, va1(0), seg1_end, seg1_end, 0x1000)]
+    else:
+        phs = [phdr(1, 5, 0, va1(0), a_end, a_end, 0x1000), phdr(1, 4, b_off, va1(b_off), seg1_end - b_off, seg1_end - b_off, 8)]
+    if want_split and b_off is None:
+        phs.append(phdr(0, 0, 0, 0, 0, 0, 0))          # PT_NULL filler
+    phs += [
+        phdr(1, 6, seg2_off, va2(seg2_off), seg2_end - seg2_off, seg2_end - seg2_off + r.choice([0, 64]), 0x1000),
+        phdr(2, 6, dyn_off, va2(dyn_off), len(dynamic), len(dynamic), w)]
     if r.random() < 0.4:
         r.shuffle(phs)              # program headers in any order (PT_DYNAMIC before the PT_LOADs, PT_LOADs descending)
     ph = b''.join(phs)
@@ -430,11 +447,11 @@ def build_dynamic(r):
         machine = 8
     if cls == 32:
         eh = ident + (3).to_bytes(2, bo) + machine.to_bytes(2, bo) + (1).to_bytes(4, bo) + bytes(4) + ehsize.to_bytes(4, bo) + shoff.to_bytes(4, bo) + \
-            bytes(4) + ehsize.to_bytes(2, bo) + phsize.to_bytes(2, bo) + (3).to_bytes(2, bo) + shsize.to_bytes(2, bo) + \
+            bytes(4) + ehsize.to_bytes(2, bo) + phsize.to_bytes(2, bo) + nph.to_bytes(2, bo) + shsize.to_bytes(2, bo) + \
             len(present).to_bytes(2, bo) + index['.shstrtab'].to_bytes(2, bo)
     else:
         eh = ident + (3).to_bytes(2, bo) + machine.to_bytes(2, bo) + (1).to_bytes(4, bo) + bytes(8) + ehsize.to_bytes(8, bo) + shoff.to_bytes(8, bo) + \
-            bytes(4) + ehsize.to_bytes(2, bo) + phsize.to_bytes(2, bo) + (3).to_bytes(2, bo) + shsize.to_bytes(2, bo) + \
+            bytes(4) + ehsize.to_bytes(2, bo) + phsize.to_bytes(2, bo) + nph.to_bytes(2, bo) + shsize.to_bytes(2, bo) + \
             len(present).to_bytes(2, bo) + index['.shstrtab'].to_bytes(2, bo)
     body[:ehsize] = eh
     body[ehsize:ehsize + len(ph)] = ph
